@@ -83,6 +83,35 @@ def errName : PlanErr → String
   | .badConfig => "badconfig"
   | .fuel => "model-fuel"
 
+/-- the Offsets log files the code writes: one for the block sorter, one per pass -/
+def expectedLogs (lt : Rec → Rec → Bool) (combf : Rec → Rec → Option Rec) (cfg : Cfg) (lazyMem : Nat)
+    (blocks : List (List Rec)) (counts : List Nat) (rs : Nat) : List (List (Nat × Nat)) :=
+  let stage0 := offsetsFile (counts.map (· * rs))
+  match afterBlockSorter lt blocks with
+  | none => [stage0]
+  | some runs =>
+    if runs.length ≤ 1 then [stage0]
+    else
+      match codeMergeLoopT lt combf (fun _ _ _ => 0) cfg lazyMem runs.length runs 0 [] with
+      | .error _ => [stage0]
+      | .ok (_, _, hist) => stage0 :: hist.map (fun lens => offsetsFile (lens.map (· * rs)))
+
+def logsStr (logs : List (List (Nat × Nat))) : String := Id.run do
+  let mut h := fnvOffset
+  let mut shown := ""
+  let mut g := 0
+  for log in logs do
+    let mut i := 0
+    for e in log do
+      h := fnvNat (fnvNat h e.1 8) e.2 8
+      if g < 4 && i < 5 then
+        shown := shown ++ (if i > 0 then "," else "") ++ s!"{e.1}*{e.2}"
+      i := i + 1
+    h := fnvByte h 0xAA
+    if g < 4 then shown := shown ++ ";"
+    g := g + 1
+  return s!"logs={logs.length}:{h} logshow={shown}"
+
 def parseCounts (s : String) : Option (List Nat) :=
   (s.splitOn ",").filter (· ≠ "") |>.mapM (·.toNat?)
 
@@ -132,7 +161,8 @@ def runCase (args : List String) : IO String := do
               let ho := hashes l out
               let agree := ho.n == hs.n && ho.keyhash == hs.keyhash && ho.mset == hs.mset
               let mretS := if mode = "blocking" then "-" else toString mret
-              return s!"M {ho.str} passes={passes} mret={mretS} lazy={lazyMem} spec={if agree then "same" else "DIFF"}"
+              let logs := expectedLogs lt combf cfg lazyMem blocks counts rs
+              return s!"M {ho.str} passes={passes} mret={mretS} lazy={lazyMem} spec={if agree then "same" else "DIFF"} {logsStr logs}"
           else
             return s!"M {hs.str} passes=- mret=- lazy={lazyMem} spec=same"
     | _, _, _, _, _, _, _, _ => return "M bad-op"
